@@ -102,6 +102,12 @@ def run(chk, repo, tier):
             # (2) residue gate: some true fact eq(mod(T, P), 0) with T ≡ x³+Ax+B − y² for the point used
             pts = [a for a in ev["args"] if isinstance(a, tuple) and len(a) == 3 and a != (Gx, Gy, 1)]
             for pt in pts:
+                if isinstance(pt[1], Term) and pt[1].op == "sub" and pt[1].args[0] == Pm and isinstance(pt[1].args[1], Term) \
+                        and pt[1].args[1].op == "item":
+                    gate_bad.append(f"{ev['fn']} at {ev['where']} takes a hand-negated Jacobian point (x, P − y, z) built from another "
+                                    "routine's result: for the identity (0, 0, z) this is (0, P, z), whose y is truthy, so the "
+                                    "routines no longer recognise it as the identity (unreduced coordinate)")
+                    continue
                 if not _residue_gate(facts, pt, x, A, B, Pm):
                     gate_bad.append(f"{ev['fn']} at {ev['where']} uses ({show(pt[0])[:20]}, y, 1) without the on-curve (residue) gate")
     chk.ob("C19.R1", f.qualname, "gates dominate every point / inverse use", not gate_bad and nsink >= 4,
